@@ -32,6 +32,8 @@ ASSUMPTIONS = ['gfortran 12 -O0 with -fcheck=bounds,do -ftrapv -ffpe-trap -fcray
                'while the finding "CONTIGUOUS on the explicit-shape stack dummy" is listed, that attribute is deleted from the '
                'explicit-shape stack declarations of FtrPtr/DirectIdx candidates before compiling (it has no meaning there), so that '
                'the rest of their output is still exercised; the committed replay compiles the unmodified output',
+               'while the finding "FtrPtr pointer target section one element too long" is listed, the upper bound of these sections '
+               'is reduced by one before compiling, so that -fcheck=bounds still detects any OTHER under-allocation',
                'the compilation units of a project are concatenated into one file before compiling (original and candidate alike)']
 SHARDS = {'quick': 8, 'thorough': 16}
 BUDGET = {'quick': 80, 'thorough': 1500}
@@ -42,24 +44,44 @@ SCC_PIPE = {'pool': 'SCC{m}StackPipeline', 'ftrptr': 'SCC{m}StackFtrPtrPipeline'
 
 TRIGGER_SIGS = {
     'stack_dummy_contiguous': 'C38:stack_dummy_contiguous:candidate-does-not-compile',
+    'ftrptr_section_one_too_long': 'C38:ftrptr_section_one_too_long:stack-array-out-of-bounds',
+    'directidx_offset_dropped': 'C38:directidx_offset_dropped:wrong-result',
+    'directidx_stack_one_short': 'C38:directidx_stack_one_short:stack-array-out-of-bounds',
+    'rawstack_kind_only_in_callee': 'C38:rawstack_kind_only_in_callee:candidate-does-not-compile',
 }
 
-PROFILE = gen_scc.profile(temp_shapes=['r1', 'r2', 'r2', 'r2z', 'r2p', 'r2c', 'r3', 'v1'],
-                          temp_types=['real', 'real', 'real4', 'int', 'log'], max_temps=4)
-PROFILE_THOROUGH = gen_scc.profile(temp_shapes=['r1', 'r2', 'r2', 'r2z', 'r2p', 'r2c', 'r3', 'v1'],
-                                   temp_types=['real', 'real', 'real4', 'int', 'log'], max_temps=5, max_kernels=4, max_blocks=7)
+# the SCC stage of the SCC*Stack pipelines is judged by C37: the triggers of ITS known findings are switched off here
+_COMMON = dict(temp_shapes=['r1', 'r2', 'r2', 'r2z', 'r2p', 'r2c', 'r3', 'v1'], temp_types=['real', 'real', 'real4', 'int', 'log'],
+               driver_bounds_in_section=False, edge_uniform=False)
+PROFILE = gen_scc.profile(max_temps=4, **_COMMON)
+PROFILE_THOROUGH = gen_scc.profile(max_temps=5, max_kernels=4, max_blocks=7, **_COMMON)
 
 
 def case_triggers(case):
     """
     trigger flags of listed known findings present in a case:
+      ftrptr_section_one_too_long  FtrPtr stack: "t(1:n) => P_STACK(JD:JD + n)" designates n+1 elements, one beyond the end of the stack for
+                               the last temporary; present whenever the upper bound is NOT corrected (variant flag keep_ptr_upper)
+      directidx_offset_dropped     DirectIdx stack: references whose linear offset is not a sum (t(jl) of a rank-1 temporary) lose the
+                               stack position of the temporary
+      directidx_stack_one_short    DirectIdx stack: positions start at 1 and the offset of the first element is 1 as well: the last
+                               temporary on the deepest path ends one element beyond the stack.
+                               (no DirectIdx variant is generated while either of the two is listed; their replays are hand-written)
+      rawstack_kind_only_in_callee Raw stack: a kernel without a stack temporary of some type/kind calls a kernel that has one
+                               (gen_scc.rawstack_kind_only_in_callee, conservative)
       stack_dummy_contiguous   FtrPtr / DirectIdx stack: the explicit-shape stack dummy is declared CONTIGUOUS (rejected by gfortran);
                                present whenever the attribute is NOT stripped (variant flag keep_contiguous)
     """
     v = case['variant']
+    if 'triggers' in case:          # hand-written replays name their triggers
+        return list(case['triggers'])
     t = []
     if v['alloc'] in ('ftrptr', 'directidx') and v.get('keep_contiguous'):
         t.append('stack_dummy_contiguous')
+    if v['alloc'] == 'ftrptr' and v.get('keep_ptr_upper'):
+        t.append('ftrptr_section_one_too_long')
+    if v['alloc'] == 'rawstack' and 'model' in case and gen_scc.rawstack_kind_only_in_callee(case['model']):
+        t.append('rawstack_kind_only_in_callee')
     return t
 
 
@@ -78,11 +100,11 @@ def make_steps(v):
                 kw['int_kind'] = 'jpim'
             return [getattr(sc, SCC_PIPE[a].format(m=v['scc']))(**kw)]
         if a == 'hoist':
-            dv = (horizontal.size,) + tuple(horizontal.aliases) if v.get('dim_vars') else None
+            dv = tuple(horizontal.sizes) if v.get('dim_vars') else None
             return [tp.HoistTemporaryArraysAnalysis(dim_vars=dv),
                     tp.HoistVariablesTransformation(as_kwarguments=bool(v.get('as_kwarguments')))]
         if a == 'hoist-alloc':
-            dv = (horizontal.size,) + tuple(horizontal.aliases) if v.get('dim_vars') else None
+            dv = tuple(horizontal.sizes) if v.get('dim_vars') else None
             return [tp.HoistTemporaryArraysAnalysis(dim_vars=dv),
                     tp.HoistTemporaryArraysTransformationAllocatable(as_kwarguments=bool(v.get('as_kwarguments')))]
         if a == 'pool':
@@ -107,6 +129,13 @@ def strip_contiguous(files):
     return [(n, _CONTIG.sub(r'\1\2', t)) for n, t in files]
 
 
+_PTRUP = re.compile(r'(=>\s*(?:&\s*\n\s*&\s*)?\w+_STACK\((\w+):\2 \+ [^\n]*)\)[ \t]*$', re.I | re.M)
+
+
+def fix_ptr_upper(files):
+    return [(n, _PTRUP.sub(r'\1 - 1)', t)) for n, t in files]
+
+
 def stack_storage_used(cand):
     txt = '\n'.join(t for _, t in cand).upper()
     return any(k in txt for k in ('_STACK', 'YLSTACK', 'POINTER('))
@@ -125,11 +154,15 @@ def check_case(case, ctx):
     try:
         cand, info = scc_run.apply(case, files, make_steps(v))
     except Exception as e:  # noqa: loki raised on a generated input
+        if not scc_run.raised_inside_loki(e):
+            raise                                   # our own bug: harness error, never a rejection
         ctx.reject(e, case)
         ctx.case(case, False, classes + ['rejected'])
         return
     if v['alloc'] in ('ftrptr', 'directidx') and not v.get('keep_contiguous'):
         cand = strip_contiguous(cand)
+    if v['alloc'] == 'ftrptr' and not v.get('keep_ptr_upper'):
+        cand = fix_ptr_upper(cand)
     nk = len(case['model']['kernels']) if 'model' in case else 2
     moved = info['hoisted'] >= 1 or (v['alloc'] not in ('hoist', 'hoist-alloc') and stack_storage_used(cand[1:]))
     nontrivial = nk >= 2 and moved
@@ -148,20 +181,27 @@ def check_case(case, ctx):
         kind, detail = bad
         if kind == 'wrong-result' and res.ok and len(res.out) < len(orig.out) and orig.out.startswith(res.out):
             kind = 'stack-overflow-guard-fired(STOP)'
-        elif kind == 'wrong-result' and not res.ok and 'bound' in res.err and '_STACK' in res.err.upper():
+        elif kind == 'wrong-result' and not res.ok and ('bound' in res.err or 'outside of expected range' in res.err) and '_STACK' in res.err.upper():
             kind = 'stack-array-out-of-bounds'
         tags = '+'.join(case_triggers(case)) or f'{name}:unlisted'
         ctx.fail(f'C38:{tags}:{kind}', case, detail)
 
 
 @st.composite
-def cases(draw, prof, triggers, first=0):
-    m = draw(gen_scc.model(prof))
-    g = gen_scc.G(draw)
+def cases(draw, prof, triggers, first=0, salt=None):
+    m = draw(gen_scc.model(prof, salt))
+    g = gen_scc.G(draw, None if salt is None else salt + 1)
     n = g.i(2, 3)
     vs, avoided = [], []
     for j in range(n):
         a = ALLOCATORS[(first + j + g.i(0, len(ALLOCATORS) - 1)) % len(ALLOCATORS)]
+        if a == 'directidx' and not (triggers['directidx_offset_dropped'] and triggers['directidx_stack_one_short']):
+            # every DirectIdx variant runs into one of the two listed findings: none is generated while either is listed
+            avoided.append('directidx_offset_dropped|directidx_stack_one_short')
+            a = 'rawstack'
+        if a == 'rawstack' and not triggers['rawstack_kind_only_in_callee'] and gen_scc.rawstack_kind_only_in_callee(m):
+            avoided.append('rawstack_kind_only_in_callee')
+            a = 'pool'
         v = dict(alloc=a)
         if a in SCC_PIPE and g.chance(30):
             v['scc'] = g.pick(['V', 'S'])
@@ -175,6 +215,10 @@ def cases(draw, prof, triggers, first=0):
             v['keep_contiguous'] = int(triggers['stack_dummy_contiguous'])
             if not v['keep_contiguous']:
                 avoided.append('stack_dummy_contiguous')
+        if a == 'ftrptr':
+            v['keep_ptr_upper'] = int(triggers['ftrptr_section_one_too_long'])
+            if not v['keep_ptr_upper']:
+                avoided.append('ftrptr_section_one_too_long')
         vs.append(v)
     return {'model': m, 'variants': vs, 'avoided': avoided}
 
@@ -191,7 +235,7 @@ def check_group(group, ctx):
 def run_shard(ctx):
     triggers = {t: (sig not in ctx.known_sigs) for t, sig in TRIGGER_SIGS.items()}
     prof = PROFILE_THOROUGH if ctx.thorough else PROFILE
-    ctx.given(cases(prof, triggers, first=ctx.shard), check_group, ctx.scale(100, 2400), shrink=False)
+    ctx.given(cases(prof, triggers, first=ctx.shard, salt=ctx.seed), check_group, ctx.scale(100, 2400), shrink=False)
 
 
 def replay(case, ctx):
